@@ -60,8 +60,95 @@ def run(ck, prog, ctx):
         for bi, t in b.calls():
             if t.callee.res in wrappers:
                 sinks.append((b, bi, t, wrappers[t.callee.res] - 1))
+    APPENDS = {"extend_from_slice", "extend", "append", "insert_many", "insert_from_slice", "extend_from_within", "push", "insert"}
+
+    _pvc = Prov(prog, inline=False, mutflow=False)
+
+    def fresh_root(b, op):
+        """the operand is (a borrow of a field of) a local created by a constructor call in this body"""
+        l = op.place.local if op.place is not None else None
+        seen_ = set()
+        while l is not None and l not in seen_:
+            seen_.add(l)
+            ds = _pvc.defs(b).get(l, [])
+            if len(ds) != 1:
+                return False
+            kind_, pos_, d_ = ds[0]
+            if kind_ == "call":
+                return d_.callee.method in ("with_capacity", "new", "default")
+            if d_.rv["k"] == "ref":
+                l = d_.rv["place"].local
+            elif d_.rv["k"] == "use" and d_.rv["op"].place is not None:
+                l = d_.rv["op"].place.local
+            else:
+                return False
+        return False
+
+    def split_insert(b, bi):
+        """the append at block bi is part of an insertion at the searched position:
+        `Err(i) = src.binary_search(&x)`, `(lo, hi) = src.split_at(i)`, then exactly  fresh.extend(lo); fresh.push(x); fresh.extend(hi).
+        None: no search dominates the append; True: the idiom is complete; False: a search dominates but the shape is another"""
+        pvc = _pvc
+        for sbi, stt in b.calls():
+            if stt.callee.method != "binary_search" or len(stt.args) != 2:
+                continue
+            edge = None
+            for wb in sorted(b.reach):
+                x = b.blocks[wb].term
+                if x.k == "switch" and any(a[0] == "call" and a[3] == b.id and a[4] == sbi for a in pvc.of_operand(b, x.discr)):
+                    tg = dict(x.targets).get(1)
+                    if tg is not None and b.edge_dominates((wb, tg), bi):
+                        edge = (wb, tg)
+            if edge is None:
+                continue
+            src = pvc.of_operand(b, stt.args[0])
+            if not is_ids_place_atoms(src):
+                return False
+            needle = params_of(pvc.of_operand(b, stt.args[1]), b.id)
+            seq = sorted([(obi, ot) for obi, ot in b.calls() if ot.callee.method in APPENDS and ot.args and is_ids_place_atoms(pvc.of_operand(b, ot.args[0])) and b.edge_dominates(edge, obi)
+                          and fresh_root(b, ot.args[0])],
+                         key=lambda q: len([1 for q2 in b.calls() if b.dominates(q2[0], q[0])]))
+            if sorted(q[1].callee.method for q in seq) != ["extend_from_slice", "extend_from_slice", "push"]:
+                return False
+
+            def half(op):
+                out = set()
+                for a in pvc.of_operand(b, op):
+                    if a[0] == "call" and a[3] == b.id and a[1].endswith("::split_at"):
+                        st2 = b.blocks[a[4]].term
+                        idx_ok = any(x[0] == "call" and x[4] == sbi and any(e[0] == "dc" and e[1] == "Err" for e in x[5]) for x in pvc.of_operand(b, st2.args[1]))
+                        same = params_of(pvc.of_operand(b, st2.args[0]), b.id) == params_of(src, b.id) and is_ids_place_atoms(pvc.of_operand(b, st2.args[0]))
+                        if idx_ok and same:
+                            out |= {e[1] for e in a[5] if e[0] == "f" and e[1] in ("0", "1")}
+                return out
+            tags = []
+            for obi, ot in seq:
+                if ot.callee.method == "push":
+                    tags.append("x" if needle and params_of(pvc.of_operand(b, ot.args[1]), b.id) == needle else "?")
+                else:
+                    h = half(ot.args[1])
+                    tags.append("lo" if h == {"0"} else "hi" if h == {"1"} else "?")
+            if tags == ["lo", "x", "hi"]:
+                return True
+            if sorted(tags) == ["hi", "lo", "x"]:
+                return "order"
+            return False
+        return None
+
     cnt = {}
     for b, bi, t, vi in sorted(sinks, key=lambda x: (x[0].id, x[1])):
+        si = split_insert(b, bi)
+        if si is not None:
+            base = b.short
+            i = cnt.get(base, 0)
+            cnt[base] = i + 1
+            if si == "order":
+                ck.ob("TAINT", "append/%s/%d" % (base, i), False, "%s copies the two halves around the searched position and the new id in another order than (below, id, above): the result is not sorted" % b.short, where=b.where(t.line))
+            elif si:
+                ck.ob("TAINT", "append/%s/%d" % (base, i), True, "%s copies the ids below the searched position, then the new id, then the ids above it (position = the not-found result of a binary search for that id)" % b.short, where=b.where(t.line))
+            else:
+                ck.undecided("TAINT", "append/%s/%d" % (base, i), "%s appends an id under the not-found arm of a binary search, in a shape that is not recognised" % b.short, where=b.where(t.line))
+            continue
         val = pvn.of_operand(b, t.args[vi])
         iterated = [a for a in val if a[0] == "call" and a[1].endswith("::next") and ("group::Iter" in a[2] or "slice::Iter<'_, term::hpotermid::HpoTermId>" in a[2])]
         bad_params = []
@@ -118,6 +205,15 @@ def run(ck, prog, ctx):
             if fresh_src and not earlier and ctor_root:
                 ck.ob("TAINT", "bulk-append/%s" % b.short, True, "%s copies a whole (sorted) id vector into a freshly created group" % b.short, where=b.where(t.line))
                 continue
+            si = split_insert(b, bi)
+            if si is not None:
+                if si == "order":
+                    pass  # reported at the single-id append
+                elif si:
+                    ck.ob("TAINT", "bulk-append/%s" % b.short, True, "%s appends the ids above the searched position after the new id" % b.short, where=b.where(t.line))
+                else:
+                    ck.undecided("TAINT", "bulk-append/%s" % b.short, "%s appends ids under the not-found arm of a binary search, in a shape that is not recognised" % b.short, where=b.where(t.line))
+                continue
             # (b) guarded by last(receiver) < first(appended)
             verdict, how = None, "no ordering test between the last id of the receiver and the first appended id dominates the append"
             for gbi, gt in b.calls():
@@ -169,9 +265,25 @@ def run(ck, prog, ctx):
             roots = {a[2] for a in ps}
             sorts = [(bi, t) for bi, t in b.calls() if t.callee.method in ("sort", "sort_unstable", "sort_by", "sort_unstable_by", "sort_by_key") and params_of(pvn.of_operand(b, t.args[0]), b.id) & roots]
             dedups = [(bi, t) for bi, t in b.calls() if t.callee.method in ("dedup", "dedup_by", "dedup_by_key") and params_of(pvn.of_operand(b, t.args[0]), b.id) & roots]
-            ok = bool(sorts) and bool(dedups) and all(any(b.dominates(sb, db) and sb != db for sb, _ in sorts) for db, _ in dedups) and all(b.dominates(db, pos[0]) for db, _ in dedups)
+            rets = [x for x in b.reach if b.blocks[x].term.k == "return"]
+
+            def covers(cb):
+                """the call happens before the vector is stored, or on every path from the store to the return"""
+                if b.dominates(cb, pos[0]) and cb != pos[0]:
+                    return True
+                after = b.reachable_from(pos[0], avoid_blocks={cb})
+                return b.dominates(pos[0], cb) and not any(r in after for r in rets)
+            # a set type cannot hold duplicates: ids taken from it unchanged only need sorting
+            plain = {"into_iter", "iter", "collect", "copied", "cloned", "from_iter", "into", "from", "next", "by_ref", "extend", "into_vec", "from_vec", "to_vec"}
+            unique_src = all(re.search(r"(HashSet|BTreeSet)<", b.locals[a[2]]["s"]) for a in ps) and all(a[1].rsplit("::", 1)[-1] in plain for a in at if a[0] == "call" and a[3] == b.id)
+            if unique_src:
+                ok = any(covers(sb) for sb, _ in sorts)
+                ck.ob("TAINT", "construct/%s" % b.short, ok, "%s stores the ids of a set type (no duplicates) as the group's vector %s" % (b.short, "after sorting them" if ok else "without sorting them on every path"), where=b.where(st.line))
+                continue
+            ordered = bool(sorts) and bool(dedups) and all(any(b.dominates(sb, db) and sb != db for sb, _ in sorts) for db, _ in dedups)
+            ok = ordered and any(covers(db) for db, _ in dedups)
             ck.ob("TAINT", "construct/%s" % b.short, ok, "%s stores caller-supplied ids as the group's vector %s" % (b.short, "after sorting and then de-duplicating them" if ok else
-                  ("after de-duplicating BEFORE sorting (non-adjacent duplicates survive)" if sorts and dedups else "without establishing order and uniqueness (needs sort, then dedup, or checked inserts)")), where=b.where(st.line))
+                  ("after de-duplicating BEFORE sorting (non-adjacent duplicates survive)" if sorts and dedups and not ordered else "without establishing order and uniqueness on every path (needs sort, then dedup, or checked inserts)")), where=b.where(st.line))
     ck.extra["whole_vector_constructions"] = ncons
     ck.extra["unchecked_append_wrappers"] = sorted(wrappers)
 
@@ -367,7 +479,8 @@ def run(ck, prog, ctx):
         out = []
         for bi, t in b.calls():
             c = t.callee
-            if c.trait in ("std::ops::BitAnd", "std::ops::BitOr") and "HpoGroup" in (c.def_args or ""):
+            # set operators between two groups (`group | id` adds one id: not a set combination)
+            if c.trait in ("std::ops::BitAnd", "std::ops::BitOr") and "HpoGroup" in (c.def_args or "") and "<term::hpotermid::HpoTermId>" not in (c.def_args or ""):
                 out.append((bi, t, "and" if c.trait.endswith("BitAnd") else "or"))
         return out
 
@@ -406,7 +519,7 @@ def run(ck, prog, ctx):
         news = [(bi, t) for bi, t in b.calls() if t.callee.res and t.callee.res.endswith("Combined::<'a>::new")]
         for bi, t in news:
             at = pv.of_operand(b, t.args[0])
-            kinds = {("and" if "BitAnd" in a[2] else "or") for a in at if a[0] == "call" and ("BitAnd" in a[2] or "BitOr" in a[2]) and "HpoGroup" in a[2]}
+            kinds = {("and" if "BitAnd" in a[2] else "or") for a in at if a[0] == "call" and ("BitAnd" in a[2] or "BitOr" in a[2]) and "HpoGroup" in a[2] and "<term::hpotermid::HpoTermId>" not in a[2]}
             ck.ob("ROLE", name + "/group", kinds == {want}, "%s iterates a group built with %s (expected `%s`)" % (name, "/".join(sorted(kinds)) or "no operator", "&" if want == "and" else "|"), where=b.where(t.line))
             if name == "all_common_ancestors":
                 ck.ob("ROLE", name + "/ids", "id" in field_names(at, "HpoTerm"), "all_common_ancestors includes the terms themselves", where=b.where(t.line))
